@@ -39,10 +39,11 @@ import (
 )
 
 type member struct {
-	Mode  string `json:"mode"`  // "kill" | "live"
-	DAG   string `json:"dag"`   // name of the definition
-	Prior bool   `json:"prior"` // a completed run of the same DAG precedes
-	K     int    `json:"k"`     // kill: relevant call number (roots: installation + socket); live: number of the call on a marker file the run is held at (roots: markers only)
+	Mode  string `json:"mode"`            // "kill" | "live" | "hold-kill"
+	DAG   string `json:"dag"`             // name of the definition
+	Prior bool   `json:"prior"`           // a completed run of the same DAG precedes
+	K     int    `json:"k"`               // kill: relevant call number (roots: installation + socket); live: number of the call on a marker file the run is held at (roots: markers only)
+	Reads string `json:"reads,omitempty"` // hold-kill: what the long-lived client read while the run was alive, before the kill (K = marker call the run is held at, as for live)
 }
 
 type harness struct {
@@ -62,6 +63,7 @@ type group struct {
 	n       int            // max number of relevant calls over the baselines
 	classes map[string]int // per call class: max count over the baselines
 	pauses  int            // number of calls the step scripts make on their marker files (= hold points of part b)
+	holds   []int          // the marker calls that open the file for the "begin"/"end" line: hold points of the hold-kill family
 	before  string         // state summary before the run / after an un-killed run
 	after   string
 }
@@ -105,7 +107,7 @@ func (hn *harness) fresh1(g *group, tag string) (in *inst, mdir string, skip map
 		}
 		m := in.takeMarkers()
 		if isCrashAtEnd(rr) && g.def.truth(m).Complete {
-			hn.res.Violate("C08/final/agent-crash-at-end-of-run", fmt.Sprintf("an untraced `start -q` of DAG %s ran all its steps (markers {%s}) and then exits 2; stderr: %s", g.def.Name, m, vlib.Short(rr.stderr, 1500)), member{"live", g.def.Name, g.prior, 0})
+			hn.res.Violate("C08/final/agent-crash-at-end-of-run", fmt.Sprintf("an untraced `start -q` of DAG %s ran all its steps (markers {%s}) and then exits 2; stderr: %s", g.def.Name, m, vlib.Short(rr.stderr, 1500)), member{Mode: "live", DAG: g.def.Name, Prior: g.prior})
 			in.cleanup(mdir)
 			return nil, mdir, nil, errCrashAtEnd
 		}
@@ -152,7 +154,7 @@ func (hn *harness) prepare(def *dagDef, prior bool, idx int) (*group, error) {
 		// the un-killed run is itself a member of "final truth": check it
 		fs := hn.finalCheck(in, def, skip, rr, m, "baseline")
 		for _, f := range fs {
-			hn.res.Violate("C08/"+f.Kind, fmt.Sprintf("DAG %s (%s), un-killed run under vtrace --log: %s", def.Name, def.About, f.Detail), member{"live", def.Name, prior, 0})
+			hn.res.Violate("C08/"+f.Kind, fmt.Sprintf("DAG %s (%s), un-killed run under vtrace --log: %s", def.Name, def.About, f.Detail), member{Mode: "live", DAG: def.Name, Prior: prior})
 		}
 		if isCrashAtEnd(rr) && crashes < 3 {
 			// reported above as final/agent-crash-at-end-of-run; its trace is not a baseline: once more
@@ -192,13 +194,18 @@ func (hn *harness) prepare(def *dagDef, prior bool, idx int) (*group, error) {
 		}
 		seqs = append(seqs, strings.Join(ks, " "))
 		np := 0
+		var holds []int
 		for _, c := range rr.trace.Calls {
 			if in.lay.fileKind(c.Path) == "marker" {
 				np++
+				if in.lay.desc(c) == "create-append(marker)" {
+					holds = append(holds, np)
+				}
 			}
 		}
 		if i == 0 {
 			g.pauses = np
+			g.holds = holds
 			g.after = in.stateSummary(skip)
 		} else if np != g.pauses {
 			in.cleanup(mdir)
@@ -285,6 +292,7 @@ func main() {
 	res.Bounds["prior_history"] = fmt.Sprint(priors)
 	res.Bounds["kill_points"] = "K = 1..N+3, N = max number of relevant calls over three un-killed runs of the scenario (per shard)"
 	res.Bounds["latest_status_today"] = "true (the default)"
+	res.Bounds["long_lived_client_reads"] = fmt.Sprintf("%d sequences of <= 2 reads over {%s} at every begin/end marker write of the run", len(readSequences(thorough)), strings.Join(readOps, ", "))
 
 	gi := 0
 	for _, def := range defs {
@@ -305,7 +313,7 @@ func main() {
 			// (b) live observations: one per call of a step script on its marker file, on the scenario without prior history
 			if !prior {
 				for j := 1; j <= g.pauses; j++ {
-					mb := member{"live", def.Name, prior, j}
+					mb := member{Mode: "live", DAG: def.Name, Prior: prior, K: j}
 					if replay != nil {
 						if *replay != mb {
 							continue
@@ -318,9 +326,31 @@ func main() {
 					}
 				}
 			}
+			// (c') kill of a held run, observed by a client that lived through it: hold points x read sequences
+			if !prior {
+				seqs := readSequences(fl.Thorough() || replay != nil)
+				if fl.Shard == 0 || replay != nil {
+					res.Count(fmt.Sprintf("hold_kill_members:%s", def.Name), int64(len(g.holds)*len(seqs)))
+				}
+				for hi, j := range g.holds {
+					for si, seq := range seqs {
+						mb := member{Mode: "hold-kill", DAG: def.Name, Prior: prior, K: j, Reads: seqName(seq)}
+						if replay != nil {
+							if *replay != mb {
+								continue
+							}
+						} else if !fl.Mine(gi*977 + hi*53 + si) {
+							continue
+						}
+						if err := hn.holdKill(g, mb, seq, replay != nil); err != nil {
+							res.CheckError("%v", err)
+						}
+					}
+				}
+			}
 			// (c) kill enumeration
 			for k := 1; k <= g.n+3; k++ {
-				mb := member{"kill", def.Name, prior, k}
+				mb := member{Mode: "kill", DAG: def.Name, Prior: prior, K: k}
 				if replay != nil {
 					if *replay != mb {
 						continue
